@@ -41,16 +41,26 @@ class CHECK(Check):
                 for _ in range(rng.randint(1, 3)):
                     bds.append({"begin": [[False, rng.choice(marks)]], "end": [[False, rng.choice(marks)]]})
                 content = "".join(rng.choice("\x01\x02\x03\x04\x05ab\n\x00\xff") for _ in range(rng.randint(0, 14)))
+                self.hierarchy(rng, bds)
                 yield {"binary": True, "blocks": bds, "content": content}
             else:
                 bds = [{"begin": rng.choice(bl.PATTERN_POOL), "end": rng.choice(bl.PATTERN_POOL)} for _ in range(rng.randint(1, 4))]
                 lines = [rng.choice(LINE_POOL) for _ in range(rng.randint(0, 10))]
+                self.hierarchy(rng, bds)
                 yield {"binary": False, "blocks": bds, "content": "\n".join(lines) + (rng.choice(["\n", "\n", ""]) if lines else "")}
+
+    @staticmethod
+    def hierarchy(rng, bds):
+        """a quarter of the block lists are class hierarchies: a later block type subclasses an earlier one"""
+        if rng.random() < 0.25:
+            for i in range(1, len(bds)):
+                if rng.random() < 0.6:
+                    bds[i]["parent"] = rng.randrange(i)
 
     def impl(self, case):
         from cfinterface.components.defaultblock import DefaultBlock
         binary = case["binary"]
-        blocks = [bl.mk_block_class(bd, i, binary) for i, bd in enumerate(case["blocks"])]
+        blocks = bl.mk_block_classes(case["blocks"], binary)
         F = bl.mk_blockfile_class(blocks, binary)
         content = case["content"].encode("latin-1") if binary else case["content"]
         try:
